@@ -26,6 +26,11 @@ Init ==
                outcomes |-> ColOutcomes(dts, addressed, tags), ok |-> TableAssignOk(dts, addressed, tags),
                rkinds |-> [i \in 1..w |-> NewColDtype(dts, addressed, tags, i).kind],
                rnullable |-> [i \in 1..w |-> NewColDtype(dts, addressed, tags, i).nullable]])
+  \/ (Suite = "rename" /\ \E w \in 1..3, k \in 0..3, k2 \in 0..3 : \E names \in [1..w -> {"a", "b", "c"}] :
+        \E olds \in [1..k -> {"a", "b", "zz"}], news \in [1..k2 -> {"a", "b", "n"}] :
+        (k2 = k \/ (k2 = k + 1 /\ k <= 1)) /\
+        c = [suite |-> "rename", names |-> names, olds |-> olds, news |-> news,
+             ok |-> RenameOk(names, olds, news), result |-> RenameColumns(names, olds, news)])
 Next == UNCHANGED c
 Emit == PrintT(<<"CASE", ToJson(c)>>)
 =============================================================================
